@@ -371,3 +371,42 @@ func H_C09_Conc(name string, c1, c2, c3, dn int) {
 	_ = ra
 	vrt.Reach("end")
 }
+
+// H_C04_Tail: two runs on inputs of the SAME length n that agree on the first m
+// positions and differ (independent symbolic values) afterwards: every output that
+// belongs to an input position < m must be the same in both runs. Unlike the prefix
+// form this cannot be satisfied by a look-ahead pipeline that merely emits fewer values
+// when the stream ends early.
+func H_C04_Tail(name string, c1, c2, c3, dn, cut int) {
+	ind := Lookup(name)
+	cfg := cfg3(c1, c2, c3)
+	inst := ind.Make(cfg)
+	w := ind.Idle(inst, cfg)
+	n := w + dn
+	m := n - cut
+	if m < 0 {
+		m = 0
+	}
+	declareOutcome(ind, cfg, n)
+	inA := Inputs(ind, "", n)
+	tail := Inputs(ind, "t", n)
+	inB := make([][]float64, len(inA))
+	for j := range inA {
+		inB[j] = append(append([]float64(nil), inA[j][:m]...), tail[j][m:]...)
+	}
+	a := RunInd(ind, inst, inA, 0)
+	b := RunInd(ind, ind.Make(cfg), inB, 0)
+	id := kfLen(ind, cfg, n)
+	for o := range a {
+		for k := range a[o] {
+			if k+w < m && k < len(b[o]) {
+				if id != "" {
+					vrt.KnownFindingEqAt(id, vrt.Name("causal", o), k, a[o][k], b[o][k])
+				} else {
+					vrt.AssertEqAt(vrt.Name("causal", o), k, a[o][k], b[o][k])
+				}
+			}
+		}
+	}
+	vrt.Reach("end")
+}
